@@ -365,6 +365,26 @@ example : ∃ g, fromEdgeArray ltStr none [("b", "a"), ("c", "a")] none { bipart
     g.rowNames = some ["b", "c"] ∧ g.colNames = some ["a"] ∧ g.matrix.nRow = 2 ∧ g.matrix.nCol = 1 := by
   refine ⟨_, rfl, ?_, ?_, ?_, ?_⟩ <;> decide +kernel
 
+/-- **symmetrised when undirected**: for a graph that is neither directed nor bipartite the specified value of
+    (a, b) is that of (b, a) — so, by `edge_array_entry_named` / `edge_array_entry_int`, the returned matrix is symmetric. -/
+theorem undirected_symmetric [DecidableEq α] (f : Flags) (hd : f.directed = false) (hb : f.bipartite = false)
+    (es : List ((α × α) × Rat)) (a b : α) : specEntry f es a b = specEntry f es b a := by
+  unfold specEntry
+  simp only [hd, hb, Bool.or_self, Bool.false_eq_true, if_false]
+  by_cases hw : f.weighted = true
+  · simp only [hw, if_true]
+    exact Rat.add_comm _ _
+  · simp only [hw, Bool.false_eq_true, if_false, Bool.or_comm]
+
+/-- the matrix of an undirected graph with integer identifiers is symmetric -/
+theorem edge_array_symmetric_int (rows : List (Int × Int)) (weights : Option (List Rat)) (f : Flags) (g : Graph Int)
+    (hr : f.reindex = false) (hd : f.directed = false) (hb : f.bipartite = false)
+    (h : fromEdgeArray ltInt (some id) rows weights f = .ok g) (i j : Nat) :
+    g.matrix.entry i j = g.matrix.entry j i := by
+  obtain ⟨_, _, _, _, _, hent⟩ := edge_array_entry_int rows weights f g hr h
+  rw [hent i j, hent j i]
+  exact undirected_symmetric f hd hb _ _ _
+
 /-- **F13, pinned code.** With `directed2undirected(matrix)` called with its default `weighted=True`, the
     unweighted undirected graph with the two reciprocal edges (0,1), (1,0) gets the entry 2: not binary. -/
 theorem pinned_unweighted_not_binary :
